@@ -8,6 +8,8 @@ import (
 	"os"
 	"runtime"
 	"sort"
+
+	dirkutil "github.com/attestantio/dirk/util"
 )
 
 type commonFlags struct {
@@ -122,6 +124,7 @@ func cmdSlashing(prop string, args []string) int {
 		inst.Close(ctx)
 	}
 	_ = mon
+	monFail = append(monFail, storageLocationProbe(run.stats)...)
 	// region sweep of the rule kernel against hand-set stored records
 	sweepCount, err := regionSweep(ctx, run, fx, rng, prop, sweepN, &monFail)
 	if err != nil {
@@ -263,4 +266,44 @@ func regionSweep(ctx context.Context, run *Runner, fx *Fixture, rng *PRNG, prop 
 	}
 	run.stats["sweep.cases"] = n
 	return n, nil
+}
+
+// storageLocationProbe: the watermarks survive a restart only if the daemon finds its store again.  main.go opens
+// the store at util.ResolvePath(storage-path); for the default (relative) storage path, without base-dir, that
+// location must not depend on the directory the daemon happens to be started from - also when $HOME is not set
+// (a system service).
+func storageLocationProbe(stats map[string]int) (fails []string) {
+	home, hadHome := os.LookupEnv("HOME")
+	cwd, err := os.Getwd()
+	if err != nil {
+		return nil
+	}
+	defer func() {
+		if hadHome {
+			_ = os.Setenv("HOME", home)
+		}
+		_ = os.Chdir(cwd)
+		if x := recover(); x != nil {
+			stats["storage-location.no-home-directory"]++
+			fails = nil
+		}
+	}()
+	resolve := func(dir string) string {
+		if err := os.Chdir(dir); err != nil {
+			panic(err)
+		}
+		return dirkutil.ResolvePath("storage")
+	}
+	for _, unset := range []bool{false, true} {
+		if unset {
+			_ = os.Unsetenv("HOME")
+		}
+		a, b := resolve("/"), resolve(os.TempDir())
+		stats["storage-location.probes"]++
+		if a != b {
+			fails = append(fails, fmt.Sprintf("restart from another directory (HOME set: %v): the slashing-protection store for storage-path \"storage\" is opened at %q when started in / and at %q when started in %s; the proposal and attestation watermarks of the first run are not seen by the second",
+				!unset, a, b, os.TempDir()))
+		}
+	}
+	return fails
 }
